@@ -7,6 +7,7 @@ import Rl4co.Core.Basic
 import Rl4co.Core.Tour
 import Rl4co.Core.Sort
 import Rl4co.Generated.Params
+import Rl4co.Env.TspfamBase
 
 namespace Rl4co.Pdp
 
@@ -27,7 +28,8 @@ structure State where
   done      : Bool
 
 /-- `to_deliver` at reset: `[1]*(n//2+1) ++ [0]*(n//2)` -/
-def toDeliver0 (i : Inst) : Nat → Bool := fun j => decide (j < i.n / 2 + 1)
+def toDeliver0 (i : Inst) : Nat → Bool :=
+  fun j => decide (j < i.n / Params.pdpResetOnes.1 + Params.pdpResetOnes.2)
 
 /-- `_reset` -/
 def reset (i : Inst) : State :=
@@ -42,11 +44,15 @@ def reset (i : Inst) : State :=
 
 def mask (_ : Inst) (s : State) (a : Nat) : Bool := s.amask a
 
+/-- `new_to_deliver = (current_node + num_loc // 2) % (num_loc + 1)`, the three constants extracted -/
+def pairIdx (i : Inst) (a : Nat) : Nat :=
+  (a + i.n / Params.pdpPairOffset.1 + Params.pdpPairOffset.2.1) % (i.n + Params.pdpPairOffset.2.2)
+
 /-- `_step`: `new_to_deliver = (a + n // 2) % (n + 1)`; `available[a] = 0`;
 `to_deliver[new_to_deliver] = 1`; `action_mask = available & to_deliver`;
 `done = count_nonzero(available) == 0`. -/
 def step (i : Inst) (s : State) (a : Nat) : State :=
-  let nt := (a + i.n / 2) % (i.n + 1)
+  let nt := pairIdx i a
   let avail := upd s.avail a false
   let toDel := upd s.toDeliver nt true
   { cur := a
@@ -72,13 +78,8 @@ with the depot). -/
 def reward (i : Inst) (as : List Nat) : Int :=
   - (List.zipWith (fun nxt c => i.D nxt c) (roll1 (0 :: as)) (0 :: as)).sum
 
-/-- torch broadcasting of `xs < ys` over the last dimension followed by `.all()`:
-sizes must be equal or one of them 1; otherwise the call raises (modelled as rejection). -/
-def bcastLt (xs ys : List Nat) : Bool :=
-  if xs.length = ys.length then (List.zipWith (fun x y => decide (x < y)) xs ys).all id
-  else if ys.length = 1 then xs.all (fun x => decide (x < ys.getD 0 0))
-  else if xs.length = 1 then ys.all (fun y => decide (xs.getD 0 0 < y))
-  else false
+/-- `xs < ys` broadcast and reduced with `.all()` (see `Tspfam.bcastCmp`) -/
+def bcastLt (xs ys : List Nat) : Bool := Tspfam.bcastCmp .lt xs ys
 
 /-- `check_solution_validity` (True = nothing raised).  `argsort` of a permutation of `0..L-1` is its
 inverse permutation, i.e. `visited_time[v] = index of v`; the first assertion guarantees a permutation
@@ -88,8 +89,17 @@ def check (i : Inst) (as : List Nat) : Bool :=
   let L := acts.length
   let vt := fun v => acts.idxOf v
   let k := L / 2 + 1
-  sortedIsRange L acts &&
-  ((acts.drop 1).dropLast).all (fun a => a != 0) &&
-  bcastLt ((List.range (k - 1)).map (fun t => vt (1 + t))) ((List.range (L - k)).map (fun t => vt (k + t)))
+  Tspfam.permTest Params.pdpCheckPermCmp L acts &&
+  ((acts.drop 1).dropLast).all (fun a => Params.pdpCheckDepotCmp.evalNat a 0) &&
+  Tspfam.bcastCmp Params.pdpCheckPrecCmp ((List.range (k - 1)).map (fun t => vt (1 + t)))
+    ((List.range (L - k)).map (fun t => vt (k + t)))
+
+/-- `get_num_starts`: `(locs.shape[-2] - 1) // 2` (locs include the depot: `n + 1` rows) -/
+def numStarts (i : Inst) : Nat := (i.n + 1 - Params.pdpStartRule.2.1) / Params.pdpStartRule.2.2
+
+/-- `select_start_nodes` for a batch of `B` instances of this size and `k` starts:
+`arange(k).repeat_interleave(B) % num_possible_starts + 1` (row `r` belongs to copy `r / B`). -/
+def selectStartNodes (i : Inst) (B k : Nat) : List Nat :=
+  (List.range (k * B)).map (fun r => (r / B) % numStarts i + Params.pdpStartRule.1)
 
 end Rl4co.Pdp
